@@ -1,7 +1,7 @@
 PROP = dict(
   units=['vhm_bs', 'vhm', 'cxxstatic:vhm'],
   level='other',
-  obligations=['vhm.bs.*', 'vhm.emplace.iff_absent', 'vhm.emplace.pool', 'vhm.emplace.retry_state', 'vhm.extract.iff_present', 'vhm.extract.pool',
+  obligations=['vhm.bs.*', 'vhm.emplace.iff_absent', 'vhm.emplace.pool', 'vhm.emplace.publish_order', 'vhm.grow.publish_order', 'vhm.emplace.retry_state', 'vhm.extract.iff_present', 'vhm.extract.pool',
                'vhm.erase.retires_only_removed', 'vhm.ops.unlock', 'vhm.ops.frame', 'vhm.remove.version_bumped', 'vhm.alloc_ext.pops_free', 'vhm.free_ext.own_bucket',
                'vhm.lock_bucket.acquired', 'vhm.grow.resize_lock', 'vhm.grow.conserves', 'vhm.get.validated', 'vhm.get.absent_validated', 'vhm.get.terminates',
                'vhm.get.seq_lookup', 'vhm.sync.release', 'vhm.sync.acquire', 'static.vhm.no_use_after_move'],
